@@ -101,3 +101,26 @@ Theorem C12_before_fix_failing_sentinel_historical_refuted :
     must_raise p s [] false chunks = false /\
     snd (feed_stream before_fix [WFail p r s] [List.concat chunks]) = false.
 Proof. exact before_fix_refuted_tried. Qed.
+
+(** * The caller's input stream at end-of-file (F-C12d, a defect of the code as it is)
+
+    [run_eof] models a run whose [in_stream] is at EOF ([StringIO("")], [< /dev/null]):
+    the stdin worker closes the child's stdin at once, so the first response to be
+    written kills its IO thread with ValueError, nothing reaches the child and the run
+    ends in ThreadException.  The clause "each response reaches the command's standard
+    input" is therefore false for such runs (pipes; under a pty stdin is not closed). *)
+Theorem C12_eof_stdin_refuted :
+  exists ws sched,
+    run current ws sched = ([["x"]], (false, false)) /\
+    run_eof current ws sched = ([[]], (false, false), true) /\
+    spec_ok ws sched ViaRun (fst (fst (run_eof current ws sched))) (snd (fst (run_eof current ws sched)))
+            (outcome_exn_eof ViaRun (snd (fst (run_eof current ws sched))) (snd (run_eof current ws sched)))
+    = false.
+Proof. exact eof_refuted. Qed.
+
+(** Guarded: when no watcher has anything to answer, EOF on the input stream changes
+    nothing (so [C12_run_meets_spec] applies).  Missing: every run with a response. *)
+Theorem C12_eof_stdin_partial : forall ws sched,
+  nonempty_writes (fst (run current ws sched)) = false ->
+  run_eof current ws sched = (fst (run current ws sched), snd (run current ws sched), false).
+Proof. exact (eof_harmless_without_responses current). Qed.
